@@ -26,17 +26,56 @@ Fixpoint find_arm {A} (n : name) (arms : list (list name * A)) : option A :=
 Definition names_of {A} (arms : list (list name * A)) : list name := List.concat (map fst arms).
 Definition is_some {A} (o : option A) : bool := match o with Some _ => true | None => false end.
 
+(* Expressions regenerated from the source (get_register_always arms, the value a set_register arm
+   assigns, the dedicated accessors' bodies, the MinidumpContext dispatch arms), evaluated.
+   Field values are of their declared unsigned type, so a widening cast is the identity and
+   a narrowing one truncates; `&&` / `||` / `if` evaluate only what Rust evaluates (an
+   out-of-range index in the branch not taken does not panic). *)
+Definition read_loc (rf : regfile) (l : loc) : outcome Z :=
+  if loc_ok l then Ret (rf_get rf l) else Panic 2.
+Fixpoint lookup_var (x : name) (env : list (name * Z)) : option Z :=
+  match env with
+  | [] => None
+  | (y, v) :: r => if name_eqb x y then Some v else lookup_var x r
+  end.
+Fixpoint aeval (rf : regfile) (env : list (name * Z)) (e : aexp) : outcome Z :=
+  match e with
+  | ALoc l => read_loc rf l
+  | ALit z => Ret z
+  | AVar x => match lookup_var x env with Some v => Ret v | None => Fail end
+  | ACast a from to => do v <- aeval rf env a; Ret (if from <=? to then v else v mod 2 ^ to)
+  | AAnd a b => do x <- aeval rf env a; do y <- aeval rf env b; Ret (Z.land x y)
+  | AOr a b => do x <- aeval rf env a; do y <- aeval rf env b; Ret (Z.lor x y)
+  | AXor a b => do x <- aeval rf env a; do y <- aeval rf env b; Ret (Z.lxor x y)
+  | ANot a w => do x <- aeval rf env a; Ret (Z.lxor x (2 ^ w - 1))
+  | AShl a k w => do x <- aeval rf env a; Ret ((x * 2 ^ k) mod 2 ^ w)
+  | AShr a k => do x <- aeval rf env a; Ret (x / 2 ^ k)
+  | AIf c a b => do t <- beval rf env c; if (t : bool) then aeval rf env a else aeval rf env b
+  | ALet x a body => do v <- aeval rf env a; aeval rf ((x, v) :: env) body
+  end
+with beval (rf : regfile) (env : list (name * Z)) (b : bexp) : outcome bool :=
+  match b with
+  | BLit t => Ret t
+  | BVar x => match lookup_var x env with Some v => Ret (negb (v =? 0)) | None => Fail end
+  | BEq x y => do u <- aeval rf env x; do v <- aeval rf env y; Ret (u =? v)
+  | BNe x y => do u <- aeval rf env x; do v <- aeval rf env y; Ret (negb (u =? v))
+  | BAnd x y => do u <- beval rf env x; if (u : bool) then beval rf env y else Ret false
+  | BOr x y => do u <- beval rf env x; if (u : bool) then Ret true else beval rf env y
+  | BNot x => do u <- beval rf env x; Ret (negb u)
+  end.
 (* get_register_always: `_ => unreachable!(..)` is Panic 1; an out-of-range index Panic 2 *)
 Definition get_always (c : ctx_table) (rf : regfile) (n : name) : outcome Z :=
   match find_arm n (ct_get c) with
-  | Some l => if loc_ok l then Ret (rf_get rf l) else Panic 2
+  | Some e => aeval rf [] e
   | None => Panic 1
   end.
 (* set_register: Some(()) with the updated context, or None for a name it does not know *)
 Definition set_reg (c : ctx_table) (rf : regfile) (n : name) (v : Z) : outcome (option regfile) :=
-  match find_arm n (ct_set c) with
-  | Some l => if loc_ok l then Ret (Some (upd rf l v)) else Panic 2
-  | None => Ret None
+  match find_arm n (ct_set c), find_arm n (ct_set_val c) with
+  | Some l, Some e => do x <- aeval rf [(v_val, v)] e;
+                      if loc_ok l then Ret (Some (upd rf l x)) else Panic 2
+  | Some _, None => Fail        (* the two tables are generated from the same arms *)
+  | None, _ => Ret None
   end.
 (* memoize_register; default_memoize_register returns REGISTERS[position(|val| <cmp>(val, reg))]: the
    first REGISTERS entry the generated comparison accepts (with `==` that is reg itself) *)
@@ -105,42 +144,7 @@ Fixpoint cpu_iter_collect (fuel : nat) (c : ctx_table) (rf : regfile) (st : list
   end.
 Definition cpu_valid_registers (c : ctx_table) (rf : regfile) (v : validity) : outcome (list (name * Z)) :=
   let st := cpu_iter_init c v in cpu_iter_collect (S (length st)) c rf st.
-(* MinidumpContext::get_stack_pointer / get_instruction_pointer: the arm's body, evaluated.
-   Field values are of their declared unsigned type, so a widening cast is the identity and
-   a narrowing one truncates; `&&` / `||` / `if` evaluate only what Rust evaluates (an
-   out-of-range index in the branch not taken does not panic). *)
-Definition read_loc (rf : regfile) (l : loc) : outcome Z :=
-  if loc_ok l then Ret (rf_get rf l) else Panic 2.
-Fixpoint lookup_var (x : name) (env : list (name * Z)) : option Z :=
-  match env with
-  | [] => None
-  | (y, v) :: r => if name_eqb x y then Some v else lookup_var x r
-  end.
-Fixpoint aeval (rf : regfile) (env : list (name * Z)) (e : aexp) : outcome Z :=
-  match e with
-  | ALoc l => read_loc rf l
-  | ALit z => Ret z
-  | AVar x => match lookup_var x env with Some v => Ret v | None => Fail end
-  | ACast a from to => do v <- aeval rf env a; Ret (if from <=? to then v else v mod 2 ^ to)
-  | AAnd a b => do x <- aeval rf env a; do y <- aeval rf env b; Ret (Z.land x y)
-  | AOr a b => do x <- aeval rf env a; do y <- aeval rf env b; Ret (Z.lor x y)
-  | AXor a b => do x <- aeval rf env a; do y <- aeval rf env b; Ret (Z.lxor x y)
-  | ANot a w => do x <- aeval rf env a; Ret (Z.lxor x (2 ^ w - 1))
-  | AShl a k w => do x <- aeval rf env a; Ret ((x * 2 ^ k) mod 2 ^ w)
-  | AShr a k => do x <- aeval rf env a; Ret (x / 2 ^ k)
-  | AIf c a b => do t <- beval rf env c; if (t : bool) then aeval rf env a else aeval rf env b
-  | ALet x a body => do v <- aeval rf env a; aeval rf ((x, v) :: env) body
-  end
-with beval (rf : regfile) (env : list (name * Z)) (b : bexp) : outcome bool :=
-  match b with
-  | BLit t => Ret t
-  | BVar x => match lookup_var x env with Some v => Ret (negb (v =? 0)) | None => Fail end
-  | BEq x y => do u <- aeval rf env x; do v <- aeval rf env y; Ret (u =? v)
-  | BNe x y => do u <- aeval rf env x; do v <- aeval rf env y; Ret (negb (u =? v))
-  | BAnd x y => do u <- beval rf env x; if (u : bool) then beval rf env y else Ret false
-  | BOr x y => do u <- beval rf env x; if (u : bool) then Ret true else beval rf env y
-  | BNot x => do u <- beval rf env x; Ret (negb u)
-  end.
+(* MinidumpContext::get_stack_pointer / get_instruction_pointer: the arm's body, evaluated *)
 Definition md_stack_pointer (c : ctx_table) (rf : regfile) : outcome Z := aeval rf [] (ct_sp_acc c).
 Definition md_instruction_pointer (c : ctx_table) (rf : regfile) : outcome Z := aeval rf [] (ct_ip_acc c).
 Definition register_size (c : ctx_table) : Z := ct_width c / 8.
